@@ -76,38 +76,28 @@ def toks_coq(l):
     return '[%s]' % '; '.join(tok_coq(t) for t in l)
 
 
-# Defects of the unchanged tree found by this check and reported, with the signature under which they are to be
-# listed in known_findings.json.  Until they are listed there (run.fail then files them as known findings), hits
-# are counted into the evidence instead of failing the run.
-LOCAL_KNOWN = {
-    'crash:IndexError:expanders.py:expand_font': '`font: normal` (only normal keywords): tokens.pop() from an empty list',
-    'var:plain-function': 'resolve_var: arguments.extend(None) for a var()-free function argument next to a var()',
-    'var:cycle': 'resolve_var: unbounded recursion on cyclic custom properties (RecursionError)',
-    'crash:AttributeError:computed_values.py:length':
-        'text-decoration-thickness: auto | from-font validates to True (walrus precedence), length() then fails',
-    'crash:AttributeError:__init__.py:preprocess_declarations':
-        'a malformed :nth-child(2n+) selector raises AttributeError in tinycss2.nth, only SelectorError is caught',
-    'crash:IndexError:properties.py:grid_template':
-        '`grid-template: 1px /` or `grid: / 1px`: grid_template([]) indexes tokens[0]',
-    'crash:AttributeError:line_break.py:deactivate':
-        '`font-language-override: ""` is accepted, Layout then has no language attribute',
-    'crash:RuntimeError:__init__.py:preprocess_stylesheet':
-        'a malformed :nth-child(+) selector raises RuntimeError (StopIteration in a generator) in tinycss2.nth',
-}
-LOCAL_HITS = {}
-
-
-def crash_sig(site):
-    """'crash:<exception>:<file>:<function>' from common's (type, path, function) or impl_c07's text"""
+def crash_sig(site, exc=None):
+    """the signature of a crash: 'crash:<exception>:<file>:<function>' from common's (type, path, function) or
+    impl_c07's text - except for the two var() crashes, recognised by their mechanism (what raised, through what)"""
     if isinstance(site, (list, tuple)) and len(site) == 3:
-        return 'crash:%s:%s:%s' % (site[0], os.path.basename(site[1]), site[2])
-    return 'crash:%s' % (site,)
+        text = '%s:%s:%s' % (site[0], os.path.basename(site[1]), site[2])
+    else:
+        text = str(site)
+    tb = (exc or {}).get('tb', '') if isinstance(exc, dict) else ''
+    msg = (exc or {}).get('msg', '') if isinstance(exc, dict) else ''
+    if text.startswith('RecursionError') and ('resolve_var' in tb or 'resolve_var' in text):
+        return 'var:cycle'
+    if text == 'TypeError:__init__.py:resolve_var' and ('NoneType' in msg or not msg):
+        return 'var:plain-function'
+    # the two selector crashes are the ones that come out of tinycss2's an+b parser, nothing else
+    if text == 'AttributeError:__init__.py:preprocess_declarations' and exc is not None and 'nth.py' not in tb:
+        return 'crash:' + text + ':not-nth'
+    if text == 'RuntimeError:__init__.py:preprocess_stylesheet' and exc is not None and 'StopIteration' not in msg:
+        return 'crash:' + text + ':not-nth'
+    return 'crash:' + text
 
 
 def fail(run, what, data, signature=None):
-    if signature in LOCAL_KNOWN and not any(k.get('signature') == signature for k in run.known):
-        LOCAL_HITS[signature] = LOCAL_HITS.get(signature, 0) + 1
-        return False
     return run.fail(what, data, signature)
 
 
@@ -412,7 +402,7 @@ def stream_pp(run, gr, cases, outs):
             continue
         if st == 'exc':
             fail(run, 'declaration block: %s at %s' % (o['type'], o['site']), {'stream': 'pp', 'css': c['css'], 'exc': o},
-                     signature=crash_sig(o['site']))
+                     signature=crash_sig(o['site'], o))
             continue
         if o['crash']:
             if o['crash'] not in crash_seen:
@@ -587,7 +577,7 @@ def stream_dispatch(run, gr, cases, outs):
         if st == 'exc':
             fail(run, '%s: %s raised %s at %s' % (c['name'], c['value'], o['type'], o['site']),
                      {'stream': 'dispatch', 'name': c['name'], 'value': c['value'], 'exc': o},
-                     signature=crash_sig(o['site']))
+                     signature=crash_sig(o['site'], o))
             continue
         if o is None:
             continue
@@ -754,7 +744,7 @@ def gen_var_case(rng, known_open):
 
 
 def cases_var(run, rng, n):
-    known_open = {k.get('signature') for k in run.known} | set(LOCAL_KNOWN)
+    known_open = {k.get('signature') for k in run.known}
     known_tags = set()
     if 'var:cycle' in known_open:
         known_tags.add('var-cycle')
@@ -1257,7 +1247,7 @@ def stream_render(run, cases, outs):
             fail(run, 'render does not end: %s' % c['note'], {'stream': 'render', 'case': c}, signature='timeout:render')
             continue
         if st == 'exc':
-            sig = crash_sig(o['site'])
+            sig = crash_sig(o['site'], o)
             if sig not in seen:
                 seen.add(sig)
                 fail(run, 'rendering raised %s at %s (%s)' % (o['type'], o['site'], c['note'][:200]),
@@ -1330,8 +1320,6 @@ def check(run):
     stream_units(run, reg, *res['units'])
     stream_var(run, *res['var'])
     stream_render(run, *res['render'])
-    run.stream_info('reported-findings-not-yet-registered', hits=dict(LOCAL_HITS), signatures=LOCAL_KNOWN,
-                    rule='crashes of the unchanged tree found by this check; their inputs stay in the streams')
 
 
 def replay(data):
@@ -1340,7 +1328,6 @@ def replay(data):
     stream = d.get('stream')
     run = common.Run('C07', 'quick', 0)
     run.known = []
-    LOCAL_KNOWN.clear()
     (st, reg), = common.run_impl('impl_c07', 'registry', [None])
     if st != 'ok':
         print('replay: registry failed', reg)
